@@ -30,6 +30,9 @@ import (
 )
 
 type asaSim struct {
+	groups map[string][]string // object-group network NAME -> members
+	gorder []string
+	mode   string              // object-group whose sub-mode is open
 	acls  map[string][]string // name -> bodies ("extended permit udp any4 any4 eq 7", "remark r3")
 	order []string
 	bind  map[string]string // "in if0" -> ACL
@@ -37,7 +40,7 @@ type asaSim struct {
 }
 
 func newAsaSim(n int) *asaSim {
-	return &asaSim{acls: map[string][]string{}, bind: map[string]string{}, nIntf: n}
+	return &asaSim{acls: map[string][]string{}, bind: map[string]string{}, nIntf: n, groups: map[string][]string{}}
 }
 
 func (d *asaSim) clone() *asaSim {
@@ -46,6 +49,10 @@ func (d *asaSim) clone() *asaSim {
 		c.acls[k] = append([]string{}, v...)
 	}
 	c.order = append([]string{}, d.order...)
+	for k, v := range d.groups {
+		c.groups[k] = append([]string{}, v...)
+	}
+	c.gorder = append([]string{}, d.gorder...)
 	for k, v := range d.bind {
 		c.bind[k] = v
 	}
@@ -56,6 +63,12 @@ func (d *asaSim) text() string {
 	var sb strings.Builder
 	for i := 0; i < d.nIntf; i++ {
 		fmt.Fprintf(&sb, "interface Ethernet0/%d\n nameif if%d\n", i, i)
+	}
+	for _, g := range d.gorder {
+		fmt.Fprintf(&sb, "object-group network %s\n", g)
+		for _, m := range d.groups[g] {
+			fmt.Fprintf(&sb, " network-object %s\n", m)
+		}
 	}
 	for _, n := range d.order {
 		for _, b := range d.acls[n] {
@@ -104,7 +117,72 @@ func (d *asaSim) exec(cmd string) error {
 	if w[0] == "no" {
 		no, w = true, w[1:]
 	}
+	if w[0] != "network-object" && cmd != "exit" {
+		d.mode = ""
+	}
+	groupRefs := func(g string) bool {
+		for _, l := range d.acls {
+			for _, b := range l {
+				if strings.Contains(" "+b+" ", " object-group "+g+" ") {
+					return true
+				}
+			}
+		}
+		return false
+	}
 	switch {
+	case cmd == "exit":
+		d.mode = ""
+		return nil
+	case w[0] == "network-object":
+		if d.mode == "" {
+			return fmt.Errorf("network-object outside of an object-group")
+		}
+		m := strings.Join(w[1:], " ")
+		l := d.groups[d.mode]
+		for i, x := range l {
+			if x == m {
+				if no {
+					if len(l) == 1 && groupRefs(d.mode) {
+						return fmt.Errorf("last member of a referenced object-group removed")
+					}
+					d.groups[d.mode] = append(l[:i:i], l[i+1:]...)
+					return nil
+				}
+				return fmt.Errorf("member already in the group")
+			}
+		}
+		if no {
+			return fmt.Errorf("member to remove is not in the group")
+		}
+		d.groups[d.mode] = append(l, m)
+		return nil
+	case len(w) == 3 && w[0] == "object-group" && w[1] == "network":
+		g := w[2]
+		_, ok := d.groups[g]
+		if no {
+			if !ok {
+				return fmt.Errorf("object-group to remove does not exist")
+			}
+			if groupRefs(g) {
+				return fmt.Errorf("object-group to remove is referenced")
+			}
+			delete(d.groups, g)
+			var o []string
+			for _, x := range d.gorder {
+				if x != g {
+					o = append(o, x)
+				}
+			}
+			d.gorder = o
+			return nil
+		}
+		if !ok {
+			d.groups[g] = []string{}
+			d.gorder = append(d.gorder, g)
+		}
+		d.mode = g
+		return nil
 	case len(w) >= 4 && w[0] == "clear" && w[1] == "configure" && w[2] == "access-list":
 		n := w[3]
 		if _, ok := d.acls[n]; !ok {
@@ -163,6 +241,13 @@ func (d *asaSim) exec(cmd string) error {
 			}
 			d.acls[n] = l
 			return nil
+		}
+		for i, x := range rest {
+			if x == "object-group" && i+1 < len(rest) {
+				if _, have := d.groups[rest[i+1]]; !have {
+					return fmt.Errorf("ACL line references object-group %s that does not exist", rest[i+1])
+				}
+			}
 		}
 		if !ok {
 			d.order = append(d.order, n)
@@ -252,7 +337,8 @@ func scriptLines(out string) []string {
 	var l []string
 	for _, s := range strings.Split(out, "\n") {
 		if strings.TrimSpace(s) != "" {
-			l = append(l, s)
+			// `\N ` joins commands that the device has to receive in one go
+			l = append(l, strings.Split(s, "\\N ")...)
 		}
 	}
 	return l
@@ -575,4 +661,188 @@ func linuxAfter(dev, out string) string {
 		}
 	}
 	return strings.Join(append(dr, dt...), "\n") + "\n"
+}
+
+// ---------------------------------------------------------------- ASA: object-groups of the raw file on a non-empty device
+//
+// Small generated targets (Netspoc ACL with an object-group, raw ACL with its own object-group, optionally an
+// [APPEND] line, bound at the same place) against devices that hold: nothing, the same target, the target without
+// its raw file, foreign object-groups / ACLs under the raw group's own name and under the generated `-DRC-0`
+// names (referenced from an ACL bound at an interface Netspoc does not know).  Expected view written down here
+// from the documented rule (raw first, [APPEND] behind the last permit and in front of the trailing deny).
+func (d *asaSim) expanded(key string) []string {
+	var out []string
+	for _, b := range d.acls[d.bind[key]] {
+		w := strings.Fields(b)
+		for i := 0; i+1 < len(w); i++ {
+			if w[i] == "object-group" {
+				m := append([]string{}, d.groups[w[i+1]]...)
+				sort.Strings(m)
+				w[i], w[i+1] = "{"+strings.Join(m, ",")+"}", ""
+			}
+		}
+		out = append(out, strings.Join(strings.Fields(strings.Join(w, " ")), " "))
+	}
+	return out
+}
+
+func runNonEmptyGroups(rng *RNG, n int, res *Result) {
+	for it := 0; it < n; it++ {
+		nPermit := rng.Intn(3)
+		withApp := rng.Chance(50)
+		rawGroup := []string{"gr1", "gr1", "g1same", "g1clash"}[rng.Intn(4)]
+		gMembers := []string{"host 10.9.9.1", "host 10.9.9.2"}
+		rMembers := []string{fmt.Sprintf("host 10.8.8.%d", 1+rng.Intn(5))}
+		rName := "gr1"
+		switch rawGroup {
+		case "g1same":
+			rName, rMembers = "g1", gMembers
+		case "g1clash":
+			rName = "g1"
+		}
+		var v4, raw, want []string
+		v4 = append(v4, "object-group network g1")
+		for _, m := range gMembers {
+			v4 = append(v4, " network-object "+m)
+		}
+		raw = append(raw, "object-group network "+rName)
+		for _, m := range rMembers {
+			raw = append(raw, " network-object "+m)
+		}
+		exp := func(m []string) string { s := append([]string{}, m...); sort.Strings(s); return "{" + strings.Join(s, ",") + "}" }
+		raw = append(raw, "access-list X1 extended permit ip object-group "+rName+" any4")
+		want = append(want, "extended permit ip "+exp(rMembers)+" any4")
+		v4 = append(v4, "access-list A1 extended permit ip object-group g1 any4")
+		want = append(want, "extended permit ip "+exp(gMembers)+" any4")
+		for i := 0; i < nPermit; i++ {
+			v4 = append(v4, fmt.Sprintf("access-list A1 extended permit ip host 10.1.1.%d any4", i+1))
+			want = append(want, fmt.Sprintf("extended permit ip host 10.1.1.%d any4", i+1))
+		}
+		if withApp {
+			want = append(want, "extended deny ip host 10.5.5.5 any4")
+		}
+		v4 = append(v4, "access-list A1 extended deny ip any4 any4", "access-group A1 in interface if0")
+		want = append(want, "extended deny ip any4 any4")
+		raw = append(raw, "access-group X1 in interface if0")
+		if withApp {
+			raw = append(raw, "[APPEND]", "access-list X1 extended deny ip host 10.5.5.5 any4")
+		}
+		files := map[string]string{"spoc": strings.Join(v4, "\n") + "\n", "spoc.raw": strings.Join(raw, "\n") + "\n", "spoc.info": `{"model":"ASA"}` + "\n"}
+		neGroupsCase(NeGroups{Files: files, Want: want, Kind: rawGroup, RName: rName}, res)
+	}
+}
+
+type NeGroups struct {
+	Files map[string]string `json:"files"`
+	Want  []string          `json:"want"`  // the ACL bound at `in if0`, groups expanded
+	Kind  string            `json:"kind"`  // gr1 | g1same | g1clash
+	RName string            `json:"rname"` // name of the raw file's object-group
+}
+
+func neGroupsCase(ng NeGroups, res *Result) {
+	files, want, rawGroup, rName := ng.Files, ng.Want, ng.Kind, ng.RName
+	{
+		input := map[string]any{"neGroups": ng}
+		fail := func(scn, pred, what string) {
+			sig, name := sigOf(pred, map[string]any{"backend": "asa", "stream": "nonempty-groups", "scenario": scn})
+			res.Count("oracle:ne:" + name)
+			res.Fail(sig, "[non-empty device, object-groups, scenario "+scn+"] "+what, input)
+		}
+		res.Count("neg:raw-group:" + rawGroup)
+		res.Eval("neGroups\n"+files["spoc"]+"--\n"+files["spoc.raw"], true)
+		if rawGroup == "g1same" {
+			// same name AND same members as Netspoc's group: the code reports this as a clash as well (the clash rule
+			// of mergeRefs for a new raw command goes by the name alone; conservative); accepted here, and if the code
+			// merges instead, the merged view is judged
+			if _, errOut, _ := drcOn(newAsaSim(nIntf+1).text(), files); strings.Contains(errOut, "Name clash for 'object-group g1' from raw") {
+				res.Count("neg:same-name-same-members-reported-as-clash")
+				return
+			}
+		}
+		if rawGroup == "g1clash" {
+			// the raw file defines a group under a name Netspoc uses, with other members: must be reported
+			_, errOut, _ := drcOn(newAsaSim(nIntf+1).text(), files)
+			if !strings.Contains(errOut, "Name clash for 'object-group g1' from raw") {
+				fail("name-clash", "raw_name_clash_not_reported", "raw object-group g1 differs from Netspoc's g1; expected 'Name clash', got: "+strings.TrimSpace(errOut))
+			} else {
+				res.Count("neg:name-clash-reported")
+			}
+			return
+		}
+		foreignDev := func(names ...string) *asaSim {
+			d := newAsaSim(nIntf + 1)
+			for i, g := range names {
+				if strings.HasPrefix(g, "A1") {
+					continue
+				}
+				d.groups[g] = []string{fmt.Sprintf("host 10.7.7.%d", i+1)}
+				d.gorder = append(d.gorder, g)
+				d.acls["F1"] = append(d.acls["F1"], "extended permit ip object-group "+g+" any4")
+			}
+			for _, g := range names {
+				if strings.HasPrefix(g, "A1") {
+					d.acls[g] = []string{"extended permit ip host 10.6.6.6 any4"}
+					d.order = append(d.order, g)
+					d.bind[fmt.Sprintf("out if%d", nIntf)] = g
+				}
+			}
+			if len(d.acls["F1"]) > 0 {
+				d.order = append(d.order, "F1")
+				d.bind[fmt.Sprintf("in if%d", nIntf)] = "F1"
+			}
+			return d
+		}
+		judge := func(scn string, d *asaSim, mustBeEmpty bool) {
+			res.Count("neg:scenario:" + scn)
+			before := map[string][]string{}
+			for _, k := range []string{fmt.Sprintf("in if%d", nIntf), fmt.Sprintf("out if%d", nIntf)} {
+				if _, ok := d.bind[k]; ok {
+					before[k] = d.expanded(k)
+				}
+			}
+			d2, st := neApprove(d, files)
+			if os.Getenv("VERIF_C18_DEBUG") == "ne" {
+				fmt.Fprintf(os.Stderr, "== groups %s\nDEVICE:\n%sSCRIPT:\n%s\n", scn, d.text(), strings.Join(st.script, "\n"))
+			}
+			if st.diag != "" {
+				fail(scn, "valid_pair_rejected", "drc ends with: "+st.diag)
+				return
+			}
+			if st.errAt != "" {
+				fail(scn, "command_refused_by_device", "the strict device refuses "+st.errAt)
+				return
+			}
+			if mustBeEmpty && len(st.script) > 0 {
+				fail(scn, "second_compare_not_empty", "device holds the merged target, compare prints: "+strings.Join(st.script, " | "))
+			}
+			if got := d2.expanded("in if0"); strings.Join(got, "\n") != strings.Join(want, "\n") {
+				fail(scn, "merged_view_not_reached", fmt.Sprintf("ACL bound at 'in if0' with its groups expanded is %q, the merged target says %q", got, want))
+			} else {
+				res.Count("neg:views-judged")
+			}
+			for k, b := range before {
+				if got := d2.expanded(k); strings.Join(got, "\n") != strings.Join(b, "\n") {
+					fail(scn, "foreign_bound_acl_changed", fmt.Sprintf("ACL bound at '%s' (interface unknown to Netspoc) was %q, is %q", k, b, got))
+				}
+			}
+			_, st2 := neApprove(d2, files)
+			if st2.diag != "" || len(st2.script) > 0 {
+				fail(scn, "second_compare_not_empty", "the compare after the approve prints: "+st2.diag+strings.Join(st2.script, " | "))
+			} else {
+				res.Count("neg:second-compare-empty")
+			}
+		}
+		empty := newAsaSim(nIntf + 1)
+		judge("empty", empty, false)
+		full, st := neApprove(empty, files)
+		if st.diag == "" && st.errAt == "" {
+			judge("again", full, true)
+		}
+		if old, st := neApprove(empty, withoutFile(files, "spoc.raw")); st.diag == "" && st.errAt == "" {
+			judge("older-without-raw", old, false)
+		}
+		judge("foreign-group-under-raw-name", foreignDev(rName), false)
+		judge("foreign-under-generated-names", foreignDev("g1-DRC-0", rName+"-DRC-0", "A1-DRC-0"), false)
+		judge("foreign-under-generated-names-0-and-1", foreignDev("g1-DRC-0", "g1-DRC-1", rName+"-DRC-0", rName+"-DRC-1", "A1-DRC-0"), false)
+	}
 }
